@@ -163,7 +163,8 @@ theorem tiles_cover : ∀ (rs : List (Nat × Nat)) (lo hi : Nat), tiles lo rs hi
 
 /-- per-chunk invariant: all pairs the chunk has stepped over are in order -/
 def ChunkOK (lt : Cmp) (a : Array Nat) (c : Chunk) : Prop :=
-  c.lo ≤ c.k ∧ ∀ k, c.lo ≤ k → k < c.k → lt (el a k) (el a (k - 1)) = false
+  c.lo ≤ c.k ∧ ∀ k, c.lo ≤ k → k < c.k →
+    lt (el a (k - 1 + Generated.C06.pretestArg1)) (el a (k - 1 + Generated.C06.pretestArg2)) = false
 
 structure PInv (lt : Cmp) (a : Array Nat) (chunks : List (Nat × Nat)) (s : PSt) : Prop where
   bounds : s.chunks.map (fun c => (c.lo, c.hi)) = chunks
